@@ -276,7 +276,7 @@ type c03Store struct {
 	kvs [][2]string
 }
 
-var c03Values = []string{"12", "-3", "2.5", "abc", "", "a,b,c", "7", "007", "x", "3", "10", "1,2", "0.5", "A", "2"}
+var c03Values = []string{"12", "-3", "2.5", "abc", "", "a,b,c", "7", "007", "x", "3", "10", "1,2", "0.5", "A", "2", "h\u00e9llo", "\u65e5\u672c"}
 
 func c03MakeStore(r *rng, n int, intsOnly bool) [][2]string {
 	kvs := make([][2]string, 0, n)
@@ -614,7 +614,7 @@ func c03Where(r *rng, g *egen) string {
 	case 1:
 		return pick(r, []string{"key ^= 'k'", "key ^= 'a'", "key > 'b'", "key between 'a' and 'k10'", "key in ('k00', 'k02', 'a01', 'nokey', 'k09')", "key = 'k03' | key = 'k07'", "key >= 'ab' & key < 'k05'"})
 	case 2:
-		return pick(r, []string{"int(value) > 2", "int(value) between 0 and 9", "is_int(value)", "value in ('7', '12', 'x')", "'a' in split(value, ',')", "strlen(value) < 3", "int(value) in (3, 7, 12)", "float(value) >= 2.5"})
+		return pick(r, []string{"int(value) > 2", "int(value) between 0 and 9", "is_int(value)", "value in ('7', '12', 'x')", "'a' in split(value, ',')", "strlen(value) < 3", "int(value) in (3, 7, 12)", "float(value) >= 2.5", "float(value) = 2.5", "int(value) != float(value)", "7.0 = int(value)"})
 	case 3:
 		return pick(r, []string{"10 / (int(value) - 7) > 1", "int(value) between strlen(value) and 7", "value between key and 'zz'"})
 	case 4:
@@ -721,7 +721,8 @@ func runC03(c *runCtx) error {
 	}
 	// aliases
 	for _, x := range []string{"u + 'x'", "n + 1", "'a' in l", "n in (1, 2, 12)", "u = 'A'", "len(l)", "l[0]", "l[1] + u",
-		"n between 1 and 20", "u between 'A' and 'KB'", "f * 2", "f > n", "n in l", "join(',', u, n)", "list(n, f)", "substr(u, 0, n)"} {
+		"n between 1 and 20", "u between 'A' and 'KB'", "f * 2", "f > n", "n in l", "join(',', u, n)", "list(n, f)", "substr(u, 0, n)",
+		"f = n", "n != f", "f = 0.5", "f != 2.25", "1.5 = f"} {
 		c03ExprCase(e, x, 2, c03Pairs, "alias")
 		c03ExprCase(e, x, 2, c03Pairs[2:5], "alias")
 	}
